@@ -16,7 +16,7 @@
 (* Independently, nc records whether the step is one the specification's    *)
 (* action allows (NC line at the first step that is not).                   *)
 (***************************************************************************)
-EXTENDS Standardiser, Sequences, Json, IOUtils, TLCExt
+EXTENDS StandardiserIncr, Sequences, Json, IOUtils, TLCExt
 
 Traces == JsonDeserialize(IOEnv.TRACE_FILE)
 NT == Len(Traces)
